@@ -470,10 +470,16 @@ impl Walrus {
                             info.cur_block_offset = 0;
                         }
                         for i in 0..ib {
-                            BlockStateTracker::set_checkpointed_true(info.chain[i].id as usize);
+                            BlockStateTracker::set_checkpointed_true(
+                                &info.chain[i].file_path,
+                                info.chain[i].id as usize,
+                            );
                         }
                         if ib < info.chain.len() && info.cur_block_offset >= info.chain[ib].used {
-                            BlockStateTracker::set_checkpointed_true(info.chain[ib].id as usize);
+                            BlockStateTracker::set_checkpointed_true(
+                                &info.chain[ib].file_path,
+                                info.chain[ib].id as usize,
+                            );
                         }
                     }
                 }
